@@ -510,3 +510,7 @@ func judgeC11Volume(hst Hist) *h.Verdict {
 func TestC11Volume(t *testing.T) {
 	h.Run(t, "C11", "volume", func(t *rapid.T) Hist { return genVolumeHist(t, true) }, volumeOf(judgeC11Volume, true))
 }
+
+func TestC11Outage(t *testing.T) {
+	h.Run(t, "C11", "outage", func(t *rapid.T) Hist { return genOutageHist(t, true, false) }, outageOf(judgeOutage(true)))
+}
